@@ -1,9 +1,9 @@
 #!/bin/bash
 # import_seed.sh <ID>: copies /tmp/seed/<ID>/seed (and demo/) into /verif/seeded/<ID>/
-id="$1"; src=/tmp/seed/$id
-mkdir -p /verif/seeded/$id
-cp -f $src/seed/patch.diff /verif/seeded/$id/patch.diff
-cp -f $src/seed/meta.json /verif/seeded/$id/meta.json
-for f in $src/seed/demo* ; do [ -e "$f" ] && cp -rf "$f" /verif/seeded/$id/; done
-[ -d $src/demo ] && cp -rf $src/demo /verif/seeded/$id/demo_dir
-git -C /repo apply --check /verif/seeded/$id/patch.diff && echo "$id: patch applies to /repo main"
+id="$1"; sd="${2:-$1}"; base="${3:-/tmp/seed}"; src=$base/$id
+mkdir -p /verif/seeded/$sd
+cp -f $src/seed/patch.diff /verif/seeded/$sd/patch.diff
+cp -f $src/seed/meta.json /verif/seeded/$sd/meta.json
+for f in $src/seed/demo* ; do [ -e "$f" ] && cp -rf "$f" /verif/seeded/$sd/; done
+[ -d $src/demo ] && cp -rf $src/demo /verif/seeded/$sd/demo_dir
+git -C /repo apply --check /verif/seeded/$sd/patch.diff && echo "$id: patch applies to /repo main"
